@@ -194,6 +194,20 @@ static void c39_free_base(struct evdns_base *b)
 	mm_free(b->req_heads);
 	mm_free(b);
 }
+/* directive-prefixed line: the literal keyword (optionally short of its last character) followed by <= n solver-chosen
+ * bytes, at the start of an object of strlen(prefix) + n + 1 bytes (over-reads behind the terminator are the business
+ * of the fully symbolic exact-size obligations; this shape reaches the long directives) */
+static char *c39_prefixed(const char *prefix, size_t plen, size_t n, size_t *lenp)
+{
+	char *obj = malloc(plen + n + 1);
+	size_t keep = vp_bool() ? plen : plen - 1, tl = (size_t)vp_range(0, n), i;
+	__CPROVER_assume(obj != NULL);
+	for (i = 0; i < keep; i++) obj[i] = prefix[i];
+	for (i = 0; i < n; i++) if (i < tl) { unsigned long long v = vp_input(); obj[keep + i] = *(char *)&v; __CPROVER_assume(obj[keep + i] != 0); }
+	obj[keep + tl] = 0;
+	*lenp = keep + tl;
+	return obj;
+}
 /* symbolic NUL-terminated string of length 0..n at the end of an exact object of n+1 bytes */
 static char *c39_string(size_t n, size_t *lenp)
 {
@@ -385,14 +399,18 @@ void harness_option(void)
 		if (c39_psp_ok[0]) {
 			VP_ASSERT(base->global_outgoing_addrlen == (ev_socklen_t)c39_psp_len[0], "C39: bind-to address length not recorded");
 			VP_ASSERT(c39_sa_equal((struct sockaddr *)&base->global_outgoing_address, (struct sockaddr *)&c39_psp_out[0], 1), "C39: bind-to address not recorded");
+#if C39_OPTK == 7 || C39_OPTK < 0
 			C39_WITNESS("C39 option: bind-to accepted");
+#endif
 		} else
 			VP_ASSERT((int)base->global_outgoing_addrlen == bound_before, "C39: rejected bind-to changed the outgoing address");
 	} else
 		VP_ASSERT((int)base->global_outgoing_addrlen == bound_before, "C39: outgoing address changed by another option");
+#if C39_OPTK != 7
 	if (k != DCR_NOPTS && wr == 0 && !c39_conf_equal(&got, &before)) C39_WITNESS("C39 option: accepted and applied");
+#endif
 	if (k != DCR_NOPTS && wr == -1) C39_WITNESS("C39 option: malformed value rejected");
-	if (k != DCR_NOPTS && wr == 0 && k != DCR_BINDTO && !(flags & dcr_opts[k].group)) C39_WITNESS("C39 option: group not selected, ignored");
+	if (k != DCR_NOPTS && wr == 0 && !(flags & dcr_opts[k].group)) C39_WITNESS("C39 option: group not selected, ignored");
 #if C39_OPTK < 0
 	if (k == DCR_NOPTS) C39_WITNESS("C39 option: unknown option ignored");
 #else
@@ -433,10 +451,15 @@ static int c39_count_ns(const struct evdns_base *b)
 	do { n++; s = s->next; } while (s != b->server_head && n < 4);
 	return n;
 }
+#ifdef C39_PREFIX
+#define C39_LN (sizeof(C39_PREFIX) - 1 + C39_N)
+#else
+#define C39_LN C39_N
+#endif
 void harness_resolv(void)
 {
 	struct evdns_base *base = evdns_base_new(NULL, 0);
-	size_t len; char *line, copy[C39_N + 1]; struct dcr_tokens t; enum dcr_line_kind kind;
+	size_t len; char *line, copy[C39_LN + 1]; struct dcr_tokens t; enum dcr_line_kind kind;
 	int flags = vp_int(), i, ns_before, ndots_before = -7, have_state_before, ndom_before = 0, have_ns = vp_bool(), have_search = vp_bool();
 	struct sockaddr_in pre; struct nameserver *pre_ns = NULL;
 	struct dcr_conf cb, ca;
@@ -459,8 +482,12 @@ void harness_resolv(void)
 	if (have_state_before) { ndots_before = base->global_search_state->ndots; ndom_before = base->global_search_state->num_domains; }
 	c39_snapshot(base, &cb);
 
+#ifdef C39_PREFIX
+	line = c39_prefixed(C39_PREFIX, sizeof(C39_PREFIX) - 1, C39_N, &len);
+#else
 	line = c39_string(C39_N, &len);
-	for (i = 0; i <= C39_N; i++) copy[i] = (size_t)i <= len ? line[i] : 0;
+#endif
+	for (i = 0; i <= (int)C39_LN; i++) copy[i] = (size_t)i <= len ? line[i] : 0;
 	dcr_tokenize(copy, &t);
 	kind = dcr_resolv_line(copy, &t, flags);
 #if defined(KF_EXCLUDE_NDOTS_RESET)
@@ -485,7 +512,9 @@ void harness_resolv(void)
 			else VP_ASSERT(c39_text_equal(c39_opt_val[i - 1], copy, t.start[i] + colon + 1, t.len[i] - colon - 1), "C39: options line: value differs from the reference");
 			VP_ASSERT(c39_opt_flags[i - 1] == flags, "C39: options line: flags not passed on");
 		}
+#if defined(C39_W_OPTIONS)
 		if (t.n >= 3) C39_WITNESS("C39 resolv: options line with two options");
+#endif
 	} else
 		VP_ASSERT(c39_opt_calls == 0, "C39: option routine called for a line that is not an options line");
 
@@ -505,17 +534,17 @@ void harness_resolv(void)
 				VP_ASSERT(ns != NULL && ns != pre_ns, "C39: nameserver line: new nameserver not in the ring");
 				VP_ASSERT(c39_sa_equal((struct sockaddr *)&ns->address, exa, 1) && ns->addrlen == (ev_socklen_t)c39_psp_len[0], "C39: nameserver line: recorded address differs (port 0 means 53)");
 				VP_ASSERT(ns->state == 1 && ns->next->prev == ns && ns->prev->next == ns, "C39: nameserver line: ring links broken");
-#if !defined(C39_AF) || C39_AF != 0
+#if defined(C39_W_NS) && C39_AF != 0
 				C39_WITNESS("C39 resolv: nameserver added");
 #endif
 			} else {
-#if !defined(C39_AF) || C39_AF == 1
+#if defined(C39_W_NS) && C39_AF == 1
 				C39_WITNESS("C39 resolv: duplicate nameserver ignored");
 #endif
 			}
 		} else {
 			VP_ASSERT(c39_count_ns(base) == ns_before, "C39: malformed nameserver line changed the nameserver list");
-#if !defined(C39_AF) || C39_AF == 0
+#if defined(C39_W_NS) && C39_AF == 0
 			C39_WITNESS("C39 resolv: malformed nameserver address skipped");
 #endif
 		}
@@ -536,25 +565,33 @@ void harness_resolv(void)
 			VP_ASSERT(d != NULL, "C39: search line: list shorter than the reference");
 			if (d) {
 				VP_ASSERT(d->len == dl, "C39: search line: domain length differs from the reference");
-				for (j = 0; j < C39_N; j++) if (j < dl && j < d->len)
+				for (j = 0; j < (int)C39_LN; j++) if (j < dl && j < d->len)
 					VP_ASSERT(((const char *)d + sizeof(struct search_domain))[j] == copy[ds + j], "C39: search line: domain text differs from the reference (file order, leading dots dropped)");
 				d = d->next;
 			}
 		}
 		VP_ASSERT(d == NULL, "C39: search line: list longer than the reference");
 		VP_ASSERT(base->global_search_state->ndots == (have_state_before ? ndots_before : 1), "C39: a domain/search line changed ndots");
+#if defined(C39_W_SEARCH)
 		if (n >= 2) C39_WITNESS("C39 resolv: search line with two domains");
+#endif
+#if defined(C39_W_DOMAIN)
 		if (kind == DCR_L_DOMAIN) C39_WITNESS("C39 resolv: domain line");
+#endif
 	} else {
 		VP_ASSERT((base->global_search_state != NULL) == have_state_before, "C39: search state created by a line that is not a search line");
 		if (have_state_before) VP_ASSERT(base->global_search_state->ndots == ndots_before && base->global_search_state->num_domains == ndom_before, "C39: search list changed by a line that is not a search line");
 	}
 	cb.have_search_state = ca.have_search_state; cb.ndots = ca.ndots;   /* (checked above) */
 	VP_ASSERT(c39_conf_equal(&ca, &cb), "C39: resolv.conf line changed an option field directly");
-	if (kind == DCR_L_NONE && t.n > 0) C39_WITNESS("C39 resolv: unknown or unselected directive ignored");
+	if (kind == DCR_L_NONE && t.n > 0) C39_WITNESS("C39 resolv: unknown, unselected or near-miss directive ignored");
 	C39_KF_WITNESS();
 	c39_free_base(base);
+#ifdef C39_PREFIX
+	free(line);
+#else
 	C39_FREE(line, C39_N, len);
+#endif
 }
 
 /* ------------------------------------------------------------------ (5) */
